@@ -22,6 +22,8 @@ from common import Check, main_wrapper
 
 KEY_ROLL = "cascade-rolling-buffer-stale-row:overread>1+slack"
 KEY_TALL = "pad-bottom-lost:ofm-stripe-end>ifm-height"
+KEY_READ = "read-offset-multiplied-by-stride"
+KEY_READROWS = "read-offset-rows-not-clamped-to-slice"
 
 
 def ntp(h, s, k):
@@ -431,6 +433,264 @@ def classify_rolling(bad_line, info):
     return None
 
 
+# ------------------------------------------------------------------------------------------------
+# C. compiled networks
+
+CONV_LIKE = ("ConvolutionMxN", "ConvolutionDepthWise", "Pooling")
+
+
+def stripe_requests(rec):
+    """Lean Spec requests (rows, columns) for one NPU stripe record, or (None, reason)"""
+    if rec["block"] not in CONV_LIKE + ("ElementWise",):
+        return None, "block_" + rec["block"]
+    if special(rec):
+        return None, "special_addressing"
+    if len(rec["ifm_box"][0]) != 4 or len(rec["ofm_box"][0]) != 4:
+        return None, "non_4d_box"
+    wo = rec["write_offset"] or [0, 0, 0, 0]
+    ifm = rec["read_shape"] or rec["ifm_shape"]
+    off = rec["read_offset"] or [0, 0, 0, 0]
+    ep = rec["explicit_padding"] or [0, 0, 0, 0]
+    hp = rec["hw_pad"] or [0, 0, 0, 0]
+    up = 1 if rec["mode"] == 0 else 2
+    kh, kw, sy, sx, dy, dx = rec["kh"], rec["kw"], rec["sy"], rec["sx"], rec["dy"], rec["dx"]
+    if rec["block"] == "ElementWise":
+        kh = kw = sy = sx = dy = dx = 1
+        oshape = rec["write_shape"] or rec["ofm_shape"]
+        if ifm[1] != oshape[1] or ifm[2] != oshape[2]:
+            return None, "elementwise_broadcast"
+    (os_, oe), (is_, ie) = rec["ofm_box"], rec["ifm_box"]
+    rows = f"recv {kh} {sy} {dy} {ep[0]} {ifm[1]} {off[1]} {up} {rec['mode']} {os_[1] - wo[1]} {oe[1] - os_[1]} {is_[1]} {ie[1]} {hp[0]} {hp[2]}"
+    cols = f"recv {kw} {sx} {dx} {ep[1]} {ifm[2]} {off[2]} {up} {rec['mode']} {os_[2] - wo[2]} {oe[2] - os_[2]} {is_[2]} {ie[2]} {hp[1]} {hp[3]}"
+    return (rows, cols), None
+
+
+def special(rec):
+    """operators whose addressing is not the plain box model (tile padding, stride multipliers, transposed OFM)"""
+    return bool(rec["orig_type"] == "Transpose" or "TILE" in rec["padding_attr"] or rec["ifm_stride_multiplier"] or rec["ofm_stride_multiplier"]
+                or rec["tile_base"])
+
+
+def rows_read(rec):
+    """stored rows [ra, rb) the hardware touches (implicit extent), for the rolling-buffer simulation"""
+    a, b = rec["ifm_box"][0][-3] if len(rec["ifm_box"][0]) >= 3 else 0, rec["ifm_box"][1][-3] if len(rec["ifm_box"][1]) >= 3 else 1
+    if rec["block"] in CONV_LIKE and rec["hw_pad"] is not None and len(rec["ofm_box"][0]) == 4 and not special(rec):
+        up = 1 if rec["mode"] == 0 else 2
+        h = rec["ofm_box"][1][1] - rec["ofm_box"][0][1]
+        ext = (h - 1) * rec["sy"] + (rec["kh"] - 1) * rec["dy"] + 1 - rec["hw_pad"][0] - rec["hw_pad"][2]
+        return a, max(a, a + (ext + up - 1) // up)
+    return a, b
+
+
+def part_c(ck):
+    import pipe_common
+
+    L.install_profiles()
+    pipe_common.CORPUS = [c for c in pipe_common.CORPUS if c[0] != "known_pad_tall"] + [("known_pad_tall", 0, 0)]
+    n = 40 if not ck.thorough else 700
+    profiles = ["cascade_chain", "c10_pad_tall", "cascade", "c10_pool_chain", "c10_upscale", "c10_slice", "c10_dilated", "mixed",
+                "cascade_chain", "elementwise", "weights", "c10_pool_chain"]
+    outs = pipe_common.run_corpus(ck, n, profiles=profiles, want={"extra": L.extract})
+    reqs, owners = [], []      # Lean Spec requests on real artefacts
+    corr, corr_real, corr_owner = [], [], []   # model == real (issue order, create_padding)
+    n_stripes = 0
+    nets_multi = set()
+    for o in outs:
+        ck.count("C_status_" + str(o.get("status", "harness-exception")))
+        if "harness_exception" in o:
+            raise common.InfraError("pipeline worker failed:\n" + o["harness_exception"])
+        for si, st in enumerate(o.get("extra") or []):
+            recs = st["stripes"]
+            byop = {}
+            for ri, rec in enumerate(recs):
+                if rec["dma"]:
+                    continue
+                n_stripes += 1
+                byop.setdefault(rec["op"], []).append(rec)
+                rq, why = stripe_requests(rec)
+                if rq is None:
+                    ck.count("C_receptive_skipped_" + why)
+                else:
+                    for axis, line in zip(("rows", "cols"), rq):
+                        reqs.append(line)
+                        owners.append(("recv", axis, o, si, ri))
+                    ck.count("C_receptive_mode_%d" % rec["mode"])
+                    if rec["read_offset"]:
+                        ck.count("C_receptive_with_read_offset")
+                    if rec["write_offset"]:
+                        ck.count("C_receptive_with_write_offset")
+                if rec["hw_pad"] is not None and rec["ifm_box_x"] is not None:
+                    ep = rec["explicit_padding"] or [0, 0, 0, 0]
+                    ro = (rec["read_offset"][2], rec["read_shape"][2]) if rec["read_offset"] is not None else ("-", "-")
+                    if rec["explicit_padding"] is not None or rec["vp"]:
+                        corr.append("cpad %d %d %d %d %d %d %d %d %d %d %d %s %s %d %d" % (
+                            rec["vp"], ep[0], ep[1], ep[2], ep[3], rec["first"], rec["last"], rec["cmd_pad"][0], rec["cmd_pad"][1],
+                            rec["ifm_box_x"][0], rec["ifm_box_x"][1], ro[0], ro[1], rec["ifm_shape"][2], int("TILE" in rec["padding_attr"])))
+                        corr_real.append(" ".join(map(str, rec["hw_pad"])))
+                        corr_owner.append(("cpad", o, si, ri))
+            # partition of every operator's OFM
+            for opi, rs in byop.items():
+                r0 = rs[0]
+                if len(r0["ofm_box"][0]) != 4:
+                    ck.count("C_partition_skipped_non4d")
+                    continue
+                s0 = r0["write_offset"] or [0, 0, 0, 0]
+                shp = r0["write_shape"] or r0["ofm_shape"]
+                e0 = [a + b for a, b in zip(s0, shp)] if r0["write_offset"] else r0["ofm_shape"]
+                reqs.append("partition %d %d %d %d %d %d " % (s0[1], e0[1], s0[2], e0[2], s0[3], e0[3]) +
+                            " ".join("%d %d %d %d %d %d" % (r["ofm_box"][0][1], r["ofm_box"][1][1], r["ofm_box"][0][2], r["ofm_box"][1][2],
+                                                            r["ofm_box"][0][3], r["ofm_box"][1][3]) for r in rs))
+                owners.append(("partition", opi, o, si, None))
+                if len(rs) > 1:
+                    ck.count("C_ops_multi_stripe")
+                    nets_multi.add((o["profile"], o["seed"], o["idx"]))
+                else:
+                    ck.count("C_ops_single_stripe")
+            # rolling-buffer rule on the issue order of the whole stream
+            acc = []
+            for rec in recs:
+                if rec["dma"]:
+                    acc.append(f"{rec['w_tid']},{max(rec['w_B'], 1)},0,{rec['w_h']},0,0,0,0")
+                    continue
+                ra, rb = rows_read(rec)
+                ob = rec["ofm_box"]
+                wy0, wy1 = (ob[0][-3], ob[1][-3]) if len(ob[0]) >= 3 else (0, 1)
+                if special(rec):      # interleaved / transposed writes: not row-contiguous, count the whole tensor as written
+                    wy0, wy1 = 0, rec["ofm_shape"][1]
+                acc.append(f"{rec['ofm_tid']},{max(rec['ofm_B'], 1)},{wy0},{wy1},{rec['ifm_tid']},{max(rec['ifm_B'], 1)},{max(ra, 0)},{max(rb, 0)}")
+            if acc:
+                reqs.append("rolling " + " ".join(acc))
+                owners.append(("rolling", None, o, si, None))
+            # issue order: model == real
+            for ci, c in enumerate(st["cascades"]):
+                if "error" in c:
+                    ck.count("C_schedule_introspection_failed")
+                    continue
+                if not c["linear"] or c["memcpy"]:
+                    ck.count("C_order_skipped_nonlinear_or_memcpy")
+                    continue
+                corr.append("cascade " + " ".join(c["descs"]))
+                corr_real.append("ok " + ";".join(c["real"]))
+                corr_owner.append(("cascade", o, si, ci))
+                ck.count("C_cascades_len_%d" % min(c["n"], 4))
+                for bi, bf in enumerate(c["buffers"]):
+                    if len(bf["stor"]) == 4 and bf["stor"][1] < 10 ** 6:
+                        corr.append("rbs %d %d %d %d %d" % (bf["p"][0], bf["p"][1], bf["p"][2], bf["c"][0], bf["c"][1]))
+                        corr_real.append("%d %d %d" % (bf["stor"][1], bf["stor"][2], bf["stor"][3]))
+                        corr_owner.append(("rbs", o, si, ci))
+    ans = ck.model(reqs) if reqs else []
+    cm = ck.model(corr) if corr else []
+    return dict(outs=outs, reqs=reqs, owners=owners, ans=ans, corr=corr, corr_real=corr_real, corr_owner=corr_owner, corr_model=cm,
+                n_stripes=n_stripes, nets_multi=nets_multi)
+
+
+def net_replay(o, si):
+    return {"profile": o["profile"], "seed": o["seed"], "index": o["idx"], "opts": o.get("opts"), "network": o.get("desc"), "stream": si,
+            "how_to_replay": "check_C10.part_c: c10_lib.install_profiles(); pipe_common._worker((seed, index, profile, {'extra': c10_lib.extract}))"}
+
+
+def classify_net_stripe(rec, axis, verdict):
+    """known-finding key for a receptive/coverage rejection of a compiled stripe"""
+    ax = 1 if axis == "rows" else 2
+    stride = rec["sy"] if axis == "rows" else rec["sx"]
+    if rec["read_offset"] is not None and rec["read_offset"][ax] != 0 and stride > 1 and rec["block"] in CONV_LIKE:
+        # the read offset of a fused slice is added to the OFM coordinate before the multiplication by the stride
+        return KEY_READ
+    if axis == "rows" and rec["read_offset"] is not None and rec["block"] in CONV_LIKE and rec["explicit_padding"] is not None:
+        off, shp, full = rec["read_offset"][1], rec["read_shape"][1], rec["ifm_shape"][1]
+        ep = rec["explicit_padding"]
+        if (off > 0 and ep[0] > 0) or (off + shp < full and (ep[2] > 0 or (rec["skirt"] or [0] * 4)[2] > 0)):
+            # rows: the IFM box is clamped to the whole tensor, not to the slice the operator reads (columns are clamped to the slice)
+            return KEY_READROWS
+    if axis == "rows" and rec["mode"] == 0:
+        ifm = rec["read_shape"] or rec["ifm_shape"]
+        wo = rec["write_offset"] or [0, 0, 0, 0]
+        if rec["ofm_box"][1][1] - wo[1] > ifm[1] and not (rec["first"] and rec["last"]):
+            return KEY_TALL
+    return None
+
+
+def classify_net_rolling(bad_line, recs):
+    import re
+
+    m = re.match(r"bad i=(\d+) tensor=(\d+) row=(\d+) slot=(\d+) found=(\S+)", bad_line)
+    if not m:
+        return None, None
+    i, tensor, row, found = int(m.group(1)), int(m.group(2)), int(m.group(3)), m.group(5)
+    if i >= len(recs) or recs[i]["dma"]:
+        return None, None
+    cons = recs[i]
+    info = None
+    if cons["block"] in CONV_LIKE and cons["skirt"] is not None and cons["mode"] == 0:
+        prods = [r for r in recs if not r["dma"] and r["ofm_tid"] == tensor]
+        cstr = [r for r in recs if not r["dma"] and r["op"] == cons["op"]]
+        if prods:
+            p = max(r["ofm_box"][1][1] - r["ofm_box"][0][1] for r in prods)
+            q = max(r["ofm_box"][1][1] - r["ofm_box"][0][1] for r in cstr)
+            kdil = (cons["kh"] - 1) * cons["dy"] + 1
+            c = min((q - 1) * cons["sy"] + kdil, cons["ifm_shape"][1])
+            B = cons["ifm_B"]
+            info = dict(p=p, q=q, c=c, B=B, s=cons["sy"], kdil=kdil, skirt_top=cons["skirt"][0], skirt_bottom=cons["skirt"][2],
+                        over=cons["sy"] + cons["skirt"][0] + cons["skirt"][2] - kdil, slack=B - p - c, consumer=cons["name"])
+    ifm = cons["read_shape"] or cons["ifm_shape"]
+    wo = cons["write_offset"] or [0, 0, 0, 0]
+    if (cons["mode"] == 0 and cons["block"] in CONV_LIKE and row >= ifm[1] and cons["ofm_box"][1][1] - wo[1] > ifm[1]
+            and not (cons["first"] and cons["last"])):
+        # the row read lies below the last IFM row: the lost pad_bottom of an OFM stripe that ends below the IFM
+        return KEY_TALL, info
+    if info is None or found == "-" or int(found) <= row:
+        return None, info
+    if info["B"] < cons["ifm_shape"][1] and info["over"] > 1 + info["slack"]:
+        return KEY_ROLL, info
+    return None, info
+
+
+def report_c(ck, Cp):
+    programs, rejected, unknown = 0, 0, 0
+    for (kind, x, o, si, ri), a in zip(Cp["owners"], Cp["ans"]):
+        programs += 1
+        recs = o["extra"][si]["stripes"]
+        if kind == "recv":
+            if a.startswith("recv=1 cov=1"):
+                continue
+            rec = recs[ri]
+            key = classify_net_stripe(rec, x, a)
+            rejected += 1
+            unknown += key is None
+            ck.count("C_receptive_reject_" + (key or "UNKNOWN"))
+            ck.violation(f"Lean Spec (receptive field / box coverage, {x}) rejects a stripe of compiled network {o['idx']} ({o['profile']}, "
+                         f"{o.get('opts')}): {a}; op {rec['name']} {rec['type']} k={rec['kh']}x{rec['kw']} s={rec['sy']} d={rec['dy']} "
+                         f"pad={rec['explicit_padding']} ifm={rec['ifm_shape']} ofm_box={rec['ofm_box']} ifm_box={rec['ifm_box']} hw_pad={rec['hw_pad']}",
+                         dict(net_replay(o, si), stripe=rec, axis=x, verdict=a, spec_request=Cp["reqs"][programs - 1]), key=key)
+        elif kind == "partition":
+            if a == "1":
+                continue
+            rejected += 1
+            unknown += 1
+            ck.violation(f"Lean Spec: OFM boxes of operator {x} of compiled network {o['idx']} ({o['profile']}) do not partition its output",
+                         dict(net_replay(o, si), spec_request=Cp["reqs"][programs - 1][:3000]))
+        else:
+            if a == "ok":
+                continue
+            key, info = classify_net_rolling(a, recs)
+            rejected += 1
+            unknown += key is None
+            ck.count("C_rolling_reject_" + (key or "UNKNOWN"))
+            ck.violation(f"Lean rolling-buffer simulation: a stripe of compiled network {o['idx']} ({o['profile']}, {o.get('opts')}) reads a row "
+                         f"that is not in its slot: {a}; buffer {info}", dict(net_replay(o, si), verdict=a, buffer=info,
+                         spec_request=Cp["reqs"][programs - 1][:3000]), key=key)
+    dis = [i for i, (m, r) in enumerate(zip(Cp["corr_model"], Cp["corr_real"])) if m != r]
+    for i in dis:
+        ck.count("C_model_disagreement_" + Cp["corr_owner"][i][0])
+    if dis and not unknown:
+        i = min(dis, key=lambda j: len(Cp["corr"][j]))
+        kind, o, si, ci = Cp["corr_owner"][i]
+        ck.violation("correspondence of the models with the compiled networks broken on %d items (%s)" % (len(dis), sorted({Cp["corr_owner"][j][0] for j in dis})),
+                     dict(net_replay(o, si), correspondence=kind, request=Cp["corr"][i][:3000], model=Cp["corr_model"][i][:3000],
+                          implementation=Cp["corr_real"][i][:3000], n=len(dis)), found_input=False)
+    return programs, rejected, dis
+
+
 def classify_stripe_failure(m):
     """known-finding key for a Spec rejection of a single stripe, or None.
     KEY_TALL: upscaling 1 and the OFM stripe ends below the last IFM row (`end_coord[-3]` is clipped to the IFM height
@@ -480,6 +740,9 @@ def report_b(ck, Bp):
 
 
 def main():
+    if os.environ.get("PYTHONHASHSEED") != "0":
+        # pipe_common seeds its per-network generator with hash(profile): pin the string hash so a run replays
+        os.execve(sys.executable, [sys.executable] + sys.argv, dict(os.environ, PYTHONHASHSEED="0"))
     ck = Check("C10", "proof")
     ck.lean_stage(["VelaVerif.Props.C10"])
     common.setup_repo_path()
@@ -487,7 +750,9 @@ def main():
     report_a(ck, A)
     Bp = part_b(ck)
     report_b(ck, Bp)
-    print("B", len(Bp["reqs"]), len(Bp["dis"]), len(Bp["spec"]), len(Bp["spec_bad"]))
+    Cp = part_c(ck)
+    programs, rejected, cdis = report_c(ck, Cp)
+    print("C", programs, rejected, len(cdis), Cp["n_stripes"])
     ck.finish({"evaluations": len(A["reqs"]) + len(A["spec"]), "distinct_nontrivial": len(set(A["reqs"])), "rule": "tbd",
                "A_disagreements": len(A["dis"]), "A_spec_rejections": len(A["spec_bad"])})
 
